@@ -4,19 +4,23 @@
 Correspondence: random families of real `ExecutionTrace`s over a random real `SubjectProperties`
 are merged by the real `ExecutionTrace.merge` / `analyze_results` in the given order, in a random
 permutation and in a random two-group split; every prefix of the family is evaluated by the real
-suite-level fitness and coverage classes.  The Lean model (`Driver/C10.lean`, mode `c11`, shared
-with C10) computes the same; merged traces are compared *including* dict / OrderedSet insertion
-order, values as exact rationals.
+suite-level fitness and coverage classes and by every single-branch restriction of the branch
+fitness (one `_predicate_fitness` summand each).  Traces come from the generators of `c10.py`
+(no-guidance predicates whose other outcome stays at distance inf, loop predicates, straight-line
+families where execution counts >= 2 arise only by merging) and from real histories (modules
+instrumented by pynguin's import hook, run under the real tracer).  The Lean model (`Driver/C10.lean`,
+mode `c11`, shared with C10) computes the same; merged traces are compared *including* dict /
+OrderedSet insertion order, values as exact rationals.
 
 Oracle (on the implementation's values only): the projections (sets as sets, dicts as maps) of the
 three merge orders coincide, merging a trace into itself doubles the counts and changes nothing
 else, all suite values coincide across orders, fitness is non-increasing and coverage
-non-decreasing along the prefixes, and a covered verdict is never lost.
+non-decreasing along the prefixes, and a covered verdict is never lost.  Whatever the implementation
+produces is canonicalised by `c10.guard` / `c10.plain` (exact number, bool, "nan", "inf", {"err": type})
+and judged here: an exception or a non-finite value is not "a fitness at most as high".
 Builders, encoders and generators are shared with `c10.py`.
 """
 from __future__ import annotations
-
-from fractions import Fraction
 
 import vcommon
 from vcommon import Failure, PropertyCheck, run_main
@@ -26,6 +30,8 @@ import c10 as base
 
 def projection(state):
     """The coverage-relevant projection of a trace state: sets as sorted lists, dicts sorted by key."""
+    if "err" in state:
+        return state
     return {"code": sorted(state["code"]), "lines": sorted(state["lines"]), "checked": sorted(state["checked"]),
             "cnt": sorted(state["cnt"]), "dT": sorted(state["dT"], key=lambda e: e[0]),
             "dF": sorted(state["dF"], key=lambda e: e[0])}
@@ -36,8 +42,20 @@ def projection(state):
 CMP_KEYS = [k for k in base.SUITE_KEYS if k not in ("bis", "bis_ex")]
 
 
-def frac(v):
-    return Fraction(v["ok"][0], v["ok"][1]) if isinstance(v, dict) and isinstance(v.get("ok"), list) else None
+frac = base.as_frac      # exact value of a canonical number; None for an exception / NaN / infinity / junk
+
+
+def state_of(f):
+    """The literal state of the trace the implementation call f returns, or {"err": type name}."""
+    try:
+        t = f()
+    except Exception as e:                   # noqa: BLE001
+        return None, base.err_of(e)
+    return t, base.trace_state(t)
+
+
+#: real-history modules (defined in c10.py): loops / repeated calls over predicates with and without guidance
+REAL_FOR_C11 = ["sutc10c", "sutc10a"]
 
 
 class C11(PropertyCheck):
@@ -48,9 +66,11 @@ class C11(PropertyCheck):
     n_quick = 1000
     n_thorough = 12000
     n_search = 5000
-    rule = ("random registries x families of 2-5 random traces, merged in order / permuted / split in two "
-            "groups / into itself, all prefixes evaluated; non-trivial = at least two traces record the same "
-            "predicate, the permutation is not the identity, all floats exactly representable")
+    rule = ("random registries x families of 2-5 random traces (30 % no-guidance predicates at distance inf, "
+            "loop predicates, 30 % straight-line families) and real tracer histories, merged in order / permuted "
+            "/ split in two groups / into itself, all prefixes evaluated; non-trivial = at least two traces "
+            "record the same predicate, the permutation is not the identity, all floats exactly representable; "
+            "input_distribution inf-ge2:* counts families with an inf distance at execution count >= 2")
     assumptions = [
         "traces have non-negative NaN-free distances and the three predicate dicts share their keys "
         "(invariant of update_predicate_distances / merge, proved: merge_preserves_shape)",
@@ -71,7 +91,8 @@ class C11(PropertyCheck):
         reg = base.gen_registry(rng)
         n = rng.choice([2, 2, 3, 3, 4, 5])
         inexact = rng.random() < 0.15
-        traces = [base.gen_trace(rng, reg, allow_inexact=inexact) for _ in range(n)]
+        once = rng.random() < 0.3            # straight-line tests: counts >= 2 arise only by merging
+        traces = [base.gen_trace(rng, reg, allow_inexact=inexact, once=once) for _ in range(n)]
         if rng.random() < 0.08:
             t = rng.choice(traces)
             k = rng.choice(["unknown_code", "unknown_line", "unknown_checked", "unknown_pred"])
@@ -85,41 +106,86 @@ class C11(PropertyCheck):
         case.update(base.gen_exclusions(rng, reg))
         return case
 
+    # -- histories: real traces of modules instrumented by pynguin's import hook ------------------
+    def corpus(self):
+        out = super().corpus()
+        rng = __import__("random").Random(self.seed * 7919 + 11)
+        for name in REAL_FOR_C11:
+            for _ in range(4 if self.tier == "quick" else 30):
+                n = rng.choice([2, 3, 3, 4])
+                perm = list(range(n))
+                rng.shuffle(perm)
+                out.append({"real": name, "calls": [base.real_call(name, rng) for _ in range(n)],
+                            "perm": perm, "split": rng.randint(0, n)})
+        return out
+
     # -- implementation -----------------------------------------------------------------------
     def impl(self, case):
+        import copy
         import pynguin.ga.fitness_metrics as fm
         key = vcommon.jdump(case)
-        sp, mreg = base.build_registry(case["reg"])
-        built = [base.build_trace(t) for t in case["traces"]]
-        # merge mutates its receiver only; every merge below starts from fresh ExecutionTrace()s
-        def fresh():
-            return [base.build_trace(t)[0] for t in case["traces"]]
+        if "real" in case:
+            sp, mod = base.real_module(case["real"])
+            originals = [base.real_run(sp, mod, c) for c in case["calls"]]
+            mreg = base.registry_json(sp)
+            mtraces = [dict(base.trace_state(t), updates=[]) for t in originals]
+            ex = {"exCode": [], "exT": [], "exF": []}
+            self.count("real:" + case["real"])
+
+            def fresh():
+                return [copy.deepcopy(t) for t in originals]
+        else:
+            sp, mreg = base.build_registry(case["reg"])
+            mtraces = [base.build_trace(t)[1] for t in case["traces"]]
+            ex = case
+
+            # merge mutates its receiver only; every merge below starts from fresh ExecutionTrace()s
+            def fresh():
+                return [base.build_trace(t)[0] for t in case["traces"]]
 
         def analyze(ts):
             return fm.analyze_results([base.result_of(t) for t in ts])
 
-        traces = [b[0] for b in built]
+        def grouped_of(ts):
+            g = analyze(ts[:case["split"]])
+            g.merge(analyze(ts[case["split"]:]))
+            return g
+
+        def self_of():
+            t = analyze(fresh())
+            t.merge(analyze(fresh()))
+            return t
+
+        # the SAME trace objects serve every prefix (as a test's cached result serves every suite it is in)
+        traces = fresh()
         n = len(traces)
-        final = analyze(fresh())
+        out = {"prefix": [base.suite_values(traces[:k], sp, ex) for k in range(n + 1)]}
+        # every single-branch fitness function along the prefixes (one `_predicate_fitness` summand each)
+        out["prefix_summands"] = []
+        for k in range(n + 1):
+            t, st = state_of(lambda k=k: analyze(fresh()[:k]))
+            out["prefix_summands"].append(base.summand_values(t, sp) if t is not None else st)
+        final, out["final"] = state_of(lambda: analyze(fresh()))
         permuted_traces = [fresh()[i] for i in case["perm"]]
-        permuted = analyze(permuted_traces)
-        ts = fresh()
-        grouped = analyze(ts[:case["split"]])
-        grouped.merge(analyze(ts[case["split"]:]))
-        selfm = analyze(fresh())
-        selfm.merge(analyze(fresh()))
-        out = {
-            "prefix": [base.suite_values(traces[:k], sp, case) for k in range(n + 1)],
-            "final": base.trace_state(final), "permuted": base.trace_state(permuted),
-            "grouped": base.trace_state(grouped), "self": base.trace_state(selfm),
-            "permuted_suite": base.suite_values(permuted_traces, sp, case),
-            "grouped_suite": base.suite_values([grouped], sp, case),
-            "hyp": base.hypotheses(sp, final),
-            "shape_each": all(base.hypotheses(sp, t)["shape"] for t in traces),
-            "approx": base.approx_flag(final) or any(base.approx_flag(t) for t in traces),
-        }
-        mcase = {"mode": "c11", "reg": mreg, "traces": [b[1] for b in built], "exCode": case["exCode"],
-                 "exT": case["exT"], "exF": case["exF"], "perm": case["perm"], "split": case["split"]}
+        _, out["permuted"] = state_of(lambda: analyze(permuted_traces))
+        grouped, out["grouped"] = state_of(lambda: grouped_of(fresh()))
+        _, out["self"] = state_of(self_of)
+        out["permuted_suite"] = base.suite_values(permuted_traces, sp, ex)
+        out["grouped_suite"] = base.suite_values([grouped], sp, ex) if grouped is not None else None
+        parts = fresh()
+        out["shape_each"] = all(base.hypotheses(sp, t)["shape"] for t in parts)
+        if final is not None:
+            out["hyp"] = base.hypotheses(sp, final)
+            out["approx"] = base.approx_flag(final) or any(base.approx_flag(t) for t in parts)
+            for cl in base.inf_rule_classes(final, parts):
+                self.count(cl)
+        else:
+            out["hyp"] = dict.fromkeys(("shape", "valid", "rwf", "goal"), False)
+            out["approx"] = False
+        if "real" in case:
+            out["real"] = True
+        mcase = {"mode": "c11", "reg": mreg, "traces": mtraces, "exCode": ex["exCode"],
+                 "exT": ex["exT"], "exF": ex["exF"], "perm": case["perm"], "split": case["split"]}
         self._mlines[key] = vcommon.jdump(mcase)
         self.count("traces:%d" % n)
         self.count("hyp:" + ("all" if all(out["hyp"].values()) else "-".join(k for k, b in out["hyp"].items() if not b)))
@@ -137,7 +203,7 @@ class C11(PropertyCheck):
         return line
 
     def compare(self, case, io, mo):
-        if "bad-op" in mo or "unparsable" in mo:
+        if "bad-op" in mo or "unparsable" in mo or io["grouped_suite"] is None:
             return False
         a, st = io["approx"], self.cmp_stats
         ok = True
@@ -148,13 +214,23 @@ class C11(PropertyCheck):
             ok &= all(base.deep_eq(pi[k], pm[k], a, st) for k in CMP_KEYS)
         for k in ("permuted_suite", "grouped_suite"):
             ok &= all(base.deep_eq(io[k][kk], mo[k][kk], a, st) for kk in CMP_KEYS)
+        ok &= base.deep_eq(io["prefix_summands"], mo["prefix_summands"], a, st)
         self.extra_coverage["compare_modes"] = dict(self.cmp_stats)
         return bool(ok)
 
     # -- property oracle on the implementation ------------------------------------------------
     def oracle(self, case, io):
+        """C11 on the implementation's values.  Every value is canonical: an exact number, a bool, or the
+        exception / "nan" / "inf" the implementation produced — the latter have no exact value (`frac` is
+        None) and break "fitness at most as high" / "coverage at least as high" as such."""
         fs = []
-        if not io["shape_each"]:
+        if not (io["shape_each"] or io.get("real")):   # a real trace is a legitimate input whatever I assume
+            return fs
+        for name in ("final", "permuted", "grouped", "self"):
+            if "err" in io[name]:
+                fs.append(Failure({"fn": "ExecutionTrace.merge", "class": f"raises-on-well-formed-traces:{name}"},
+                                  f"merging ({name}) raised {io[name]['err']} on well-formed traces"))
+        if fs:
             return fs
         pf = projection(io["final"])
         for name in ("permuted", "grouped"):
@@ -176,32 +252,49 @@ class C11(PropertyCheck):
                                   f"{diff} differ between merge orders",
                                   detail={"in-order": {k: last[k] for k in diff},
                                           name: {k: io[name][k] for k in diff}}))
-        valid = io["hyp"]["valid"] and io["hyp"]["rwf"]
+        valid = (io["hyp"]["valid"] and io["hyp"]["rwf"]) or io.get("real")
         for k in range(len(io["prefix"]) - 1):
             a, b = io["prefix"][k], io["prefix"][k + 1]
-            for key in ("bfit", "bfit_ex"):
+            for key in ("bfit", "bfit_ex", "lfit", "cfit"):
                 fa, fb = frac(a[key]), frac(b[key])
                 if fa is None or fb is None:
-                    fs.append(Failure({"fn": key, "class": "raises-on-well-formed-trace"},
-                                      f"{key} raised on a well-formed merged trace: {a[key]} / {b[key]}"))
+                    fs.append(Failure({"fn": key, "class": "raises-or-not-finite-on-well-formed-trace"},
+                                      f"{key} has no finite value on a well-formed merged trace: before adding "
+                                      f"test {k}: {a[key]!r}, after: {b[key]!r}"))
                 elif fb > fa:
                     fs.append(Failure({"fn": key, "class": "fitness-raised-by-added-test"},
                                       f"adding test {k} raised {key} from {float(fa)} to {float(fb)}"))
-            for key in ("lfit", "cfit"):
-                if b[key] > a[key]:
-                    fs.append(Failure({"fn": key, "class": "fitness-raised-by-added-test"},
-                                      f"adding test {k} raised {key} from {a[key]} to {b[key]}"))
+            # "every fitness function": also the one restricted to a single branch, for every branch
+            sa, sb = io["prefix_summands"][k], io["prefix_summands"][k + 1]
+            if isinstance(sa, dict) or isinstance(sb, dict):
+                fs.append(Failure({"fn": "analyze_results", "class": "raises-on-well-formed-traces"},
+                                  f"analyze_results raised on a prefix of well-formed traces: {sa!r} / {sb!r}"))
+                continue
+            for (p, ta, fa_), (_, tb, fb_) in zip(sa, sb):
+                for side, va, vb in (("true", ta, tb), ("false", fa_, fb_)):
+                    xa, xb = frac(va), frac(vb)
+                    if xa is None or xb is None:
+                        fs.append(Failure({"fn": "_predicate_fitness", "class": "raises-or-not-finite-on-well-formed-trace"},
+                                          f"fitness restricted to the {side} branch of predicate {p}: before adding "
+                                          f"test {k}: {va!r}, after: {vb!r}"))
+                    elif xb > xa:
+                        fs.append(Failure({"fn": "_predicate_fitness", "class": "fitness-raised-by-added-test"},
+                                          f"adding test {k} raised the fitness restricted to the {side} branch of "
+                                          f"predicate {p} from {float(xa)} to {float(xb)}"))
             # line / checked verdicts compare lengths: they mean "all lines" only for valid traces
             for key in ("bis", "bis_ex") + (("lis", "cis") if valid else ()):
-                if a[key] and not b[key]:
+                if not isinstance(a[key], bool) or not isinstance(b[key], bool):
+                    fs.append(Failure({"fn": key, "class": "no-verdict-on-well-formed-trace"},
+                                      f"{key} is not a verdict: {a[key]!r} / {b[key]!r}"))
+                elif a[key] and not b[key]:
                     fs.append(Failure({"fn": key, "class": "covered-verdict-lost"},
                                       f"adding test {k} turned {key} from True to False"))
             if valid:
                 for key in ("bcov", "lcov", "ccov"):
                     ca, cb = frac(a[key]), frac(b[key])
                     if ca is None or cb is None:
-                        fs.append(Failure({"fn": key, "class": "raises-on-valid-trace"},
-                                          f"{key} raised on a valid merged trace: {a[key]} / {b[key]}"))
+                        fs.append(Failure({"fn": key, "class": "raises-or-not-finite-on-valid-trace"},
+                                          f"{key} has no finite value on a valid merged trace: {a[key]!r} / {b[key]!r}"))
                     elif cb < ca:
                         fs.append(Failure({"fn": key, "class": "coverage-lowered-by-added-test"},
                                           f"adding test {k} lowered {key} from {float(ca)} to {float(cb)}"))
@@ -210,6 +303,9 @@ class C11(PropertyCheck):
     def classify(self, case, io):
         if io["approx"] or not io["shape_each"] or case["perm"] == sorted(case["perm"]):
             return None
+        if "real" in case:
+            shared = any(v >= 2 for _, v in io["final"].get("cnt", []))
+            return vcommon.jdump(case) if shared else None
         seen, shared = set(), False
         for t in case["traces"]:
             ps = {u[0] for u in t["updates"]}
